@@ -299,6 +299,24 @@ def run_case(case):
                                 viol.append({'mech': 'proxy/first-proxy-broken-after-second-handed-out-and-dropped', 'msg': f'after the same hosted list was handed out again by managed_list() and that second proxy dropped, '
                                              f'a call through the first proxy gave {str(got)[:300]}; a direct call gives the list {str(local)[:120]}'})
                                 return
+                        if rd == 0:
+                            # a class registered with method_to_typeid: the method returns a plain list, the caller gets a live proxy to it
+                            reg['S'] = manager.Shelf()
+                            r = call(0, 'S', 'items_proxy', [], None, 'SI')
+                            if r[0] != 'proxy':
+                                viol.append({'mech': 'proxy/managed-value-is-a-copy', 'msg': f'a method listed in method_to_typeid returned {str(r)[:200]} instead of a live proxy'})
+                                return
+                            share('SI', list(agents))
+                            exp_items = []
+                            for j in range(6):
+                                v = ('shelf', j)
+                                call(rng.choice([0] + list(agents)), 'SI', 'append', [v])
+                                exp_items.append(v)
+                                obs['managed_mutations'] += 1
+                            snap = call(0, 'S', 'items_snapshot', [])
+                            if snap != ('val', exp_items):
+                                viol.append({'mech': 'proxy/managed-value-is-a-copy', 'msg': f'mutations through the proxy of a method_to_typeid method are not visible in the hosted object: {snap}, expected {exp_items}'})
+                                return
                         r = call(0, 'b', 'make_own_dict', [], None, 'D')
                         share('D', list(agents))
                         for j in range(6):
